@@ -12,6 +12,8 @@ def run(ctx):
     common.replay_layer(ctx, "Options.tla", "MC_Options_all.cfg", "options-replay", "opt_all", args={"stride": 40 if q else 2}, workers=8, heap="2g", env_extra=env, sample_n=1)
     if not q:
         common.replay_layer(ctx, "Options.tla", "MC_Options_full.cfg", "options-replay", "opt_full", args={"stride": 30}, workers=10, heap="3g", env_extra=env, sample_n=1)
+    if ctx.tier == "thorough":
+        vlib.vacuity_check(ctx, "Options.tla", "MC_Options_db.cfg", expect_zero=())
     return vlib.finish(
         ctx, "model_checking",
         rule="Options.tla: for each setting the full product {flag} x {env} x {config entry} x {default config present/absent} x {--config "
